@@ -13,6 +13,7 @@ type scannerState struct {
 	err    value
 	custom bool
 	maxTok int64
+	splitFn value // a custom split function, run for real
 	sep    string // token separator ("\n" with CR dropping for ScanLines, "\x00" for tools.SplitOnNul)
 }
 
@@ -84,7 +85,7 @@ func init() {
 				return nil
 			}
 		}
-		unsup("bufio.Scanner.Split with a custom split function")
+		st(fr, a[0]).splitFn = a[1]
 		return nil
 	})
 	reg("(*bufio.Scanner).Scan", func(fr *frame, a []value) value {
@@ -100,6 +101,30 @@ func init() {
 		if !i.branch(p.mkIntCmp(">", p.mkLen(s.rest), int64(0))) {
 			s.tok = ""
 			return false
+		}
+		if s.splitFn != nil {
+			// the whole remaining input is offered with atEOF=true (the split
+			// functions git-lfs uses look for a separator and otherwise return the rest)
+			for {
+				res := call(i, fr, 0, s.splitFn, []value{i.newBytes(s.rest), true}).(tuple)
+				adv := i.concreteInt(res[0], "split function advance")
+				if e, ok := res[2].(iface); ok && e.t != nil {
+					s.err = e
+					s.tok = ""
+					return false
+				}
+				tok, _ := res[1].(*byteSlice)
+				restLen := p.mkLen(s.rest)
+				s.rest = p.mkSubstr(s.rest, adv, p.mkSub(restLen, adv))
+				if tok != nil {
+					s.tok = i.compact(i.bytesOf(tok))
+					return true
+				}
+				if adv == 0 || !i.branch(p.mkIntCmp(">", p.mkLen(s.rest), int64(0))) {
+					s.tok = ""
+					return false
+				}
+			}
 		}
 		var line value
 		sep := "\n"
